@@ -19,6 +19,8 @@ def numPrims : Prims Goat.Num.Val where
       | .gt => t (Goat.Num.lt b a) | .gte => t (Goat.Num.lte b a)
       | .eq => t (Goat.Num.eqNum a b) | .neq => !t (Goat.Num.eqNum a b))
   assignTo v old := Goat.Num.assign v old.tag
+  ofBool b := Goat.Num.mkBool b
+  truth v := v.toInt != 0
 
 partial def parseMExpr : List String → Option (Expr × List String)
   | op :: rest =>
@@ -37,6 +39,26 @@ partial def parseMExpr : List String → Option (Expr × List String)
 def parseCmp : String → Option CmpOp
   | "lt" => some .lt | "lte" => some .lte | "gt" => some .gt | "gte" => some .gte
   | "eq" => some .eq | "neq" => some .neq | _ => none
+
+/-- boolean conditions in prefix form: `and a b`, `or a b`, `not a`, `<cmp> ea eb` -/
+partial def parseB : List String → Option (BExpr × List String)
+  | "and" :: rest => do
+    let (a, r1) ← parseB rest
+    let (b, r2) ← parseB r1
+    pure (.and a b, r2)
+  | "or" :: rest => do
+    let (a, r1) ← parseB rest
+    let (b, r2) ← parseB r1
+    pure (.or a b, r2)
+  | "not" :: rest => do
+    let (a, r1) ← parseB rest
+    pure (.not a, r1)
+  | op :: rest => do
+    let o ← parseCmp op
+    let (a, r1) ← parseMExpr rest
+    let (b, r2) ← parseMExpr r1
+    pure (.cmp (Cond.mk o a b), r2)
+  | [] => none
 
 /-- Go's big-step semantics, executable (fuel bounds the number of statement executions) -/
 partial def interp (M : Sem (Option (List Goat.Num.Val))) : Nat → Stmt → Option (List Goat.Num.Val) →
@@ -88,7 +110,18 @@ partial def vmRun (code : Array Instr) : Nat → Nat → St Goat.Num.Val → Opt
     | none => some (some σ)
     | some i =>
       let jump (a : Int) : Nat := ((pc : Int) + a + 1).toNat
-      if i.op = "RETURN" then some (some σ)
+      if i.op = "AND" ∨ i.op = "OR" then
+        match σ.ops with
+        | t :: rest =>
+          let tv := t.toInt != 0
+          if (i.op = "AND" ∧ !tv) ∨ (i.op = "OR" ∧ tv) then vmRun code f (((pc : Int) + i.a + 1).toNat) σ
+          else vmRun code f (pc + 1) { σ with ops := rest }
+        | [] => some none
+      else if i.op = "NOT" then
+        match σ.ops with
+        | t :: rest => vmRun code f (pc + 1) { σ with ops := Goat.Num.mkBool (t.toInt == 0) :: rest }
+        | [] => some none
+      else if i.op = "RETURN" then some (some σ)
       else if i.op = "JUMP" then vmRun code f (jump i.a) σ
       else if i.op = "JUMPFALSE" ∨ i.op = "JUMPTRUE" then
         match σ.ops with
@@ -124,11 +157,9 @@ def miniCmd (args : List String) : String :=
       | "A" :: slot :: e => do let s ← slot.toNat?; let (x, r) ← parseMExpr e; if r.isEmpty then some (Assign.mk s x) else none
       | _ => none
     let cnds := leafSecs.filterMap fun sec => match sec with
-      | "C" :: op :: e => do
-        let o ← parseCmp op
-        let (a, r1) ← parseMExpr e
-        let (b, r2) ← parseMExpr r1
-        if r2.isEmpty then some (Cond.mk o a b) else none
+      | "C" :: e => do
+        let (b, r) ← parseB e
+        if r.isEmpty then some b else none
       | _ => none
     match parseStmt stmtToks with
     | some (body, []) =>
